@@ -5,7 +5,7 @@
 //! `http://127.0.0.1:<port>/w/<w>`, to which the real coordinator code appends
 //! `/api/v1/pipelines[/<id>[/checkpoint|/restore]]`.
 //!
-//! Scripting: deploy answers 200 `{"id","name","status"}` (ids `pid1, pid2, …` in call order) unless
+//! Scripting: deploy answers 200 `{"id","name","status"}` (ids `<pipeline>@<worker>.<n>`, n = how often that pipeline was deployed on that worker) unless
 //! `fail_deploys` is set, in which case it answers 500; checkpoint answers 404 (the coordinator treats a
 //! missing checkpoint as best effort: no checkpoint, hence no restore); restore and delete answer 200.
 
@@ -19,6 +19,8 @@ pub struct MockState {
     pub pipes: BTreeMap<(String, String), String>,
     pub seq: u32,
     pub fail_deploys: bool,
+    /// (worker, pipeline id) of pipelines that were deleted or lost in a restart
+    pub gone: Vec<(String, String)>,
     /// calls received, in order
     pub calls: Vec<String>,
 }
@@ -30,6 +32,8 @@ impl MockState {
     }
     /// the worker process restarted: all its pipelines are gone
     pub fn restart(&mut self, w: &str) {
+        let lost: Vec<(String, String)> = self.pipes.keys().filter(|(x, _)| x == w).cloned().collect();
+        self.gone.extend(lost);
         self.pipes.retain(|(x, _), _| x != w);
     }
 }
@@ -72,8 +76,11 @@ fn routes(st: Shared) -> impl Filter<Extract = (impl warp::Reply,), Error = warp
             m.calls.push(format!("deploy {name} on {w}: 500"));
             return warp::reply::with_status(warp::reply::json(&serde_json::json!({"error": "scripted failure"})), StatusCode::INTERNAL_SERVER_ERROR);
         }
+        // the id depends only on (pipeline, worker, how often that pair was deployed), never on the order
+        // in which the coordinator walks its hash maps when one operation deploys several pipelines
         m.seq += 1;
-        let id = format!("pid{}", m.seq);
+        let n = m.pipes.keys().filter(|(x, id)| *x == w && id.starts_with(&format!("{name}@"))).count() + m.gone.iter().filter(|(x, id)| *x == w && id.starts_with(&format!("{name}@"))).count() + 1;
+        let id = format!("{name}@{w}.{n}");
         m.pipes.insert((w.clone(), id.clone()), name.clone());
         m.calls.push(format!("deploy {name} on {w}: {id}"));
         warp::reply::with_status(warp::reply::json(&serde_json::json!({"id": id, "name": name, "status": "running"})), StatusCode::OK)
@@ -88,7 +95,9 @@ fn routes(st: Shared) -> impl Filter<Extract = (impl warp::Reply,), Error = warp
     });
     let delete = warp::delete().and(warp::path!("w" / String / "api" / "v1" / "pipelines" / String)).map(move |w: String, id: String| {
         let mut m = lock(&s4);
-        m.pipes.remove(&(w.clone(), id.clone()));
+        if m.pipes.remove(&(w.clone(), id.clone())).is_some() {
+            m.gone.push((w.clone(), id.clone()));
+        }
         m.calls.push(format!("delete {id} on {w}"));
         warp::reply::with_status(warp::reply::json(&serde_json::json!({"deleted": true})), StatusCode::OK)
     });
